@@ -171,6 +171,21 @@ def ref_essence(body: Optional[dict[str, Any]], extra_status_fields: Iterable[st
         m['annotations'] = keep
     if m:
         ess['metadata'] = m
+    # fields of the status stanza that some handler is registered for are part of the essence, nothing else of it
+    for path in extra_status_fields:
+        parts = str(path).split('.')
+        if parts[0] != 'status':
+            continue
+        cur: Any = body
+        for p_ in parts:
+            cur = cur.get(p_) if isinstance(cur, dict) else None
+            if cur is None:
+                break
+        if cur is not None:
+            dst = ess
+            for p_ in parts[:-1]:
+                dst = dst.setdefault(p_, {})
+            dst[parts[-1]] = copy.deepcopy(cur)
     return _prune_nulls(ess)
 
 
